@@ -61,6 +61,8 @@ type Obligation struct {
 }
 
 type VC struct {
+	NoSafety bool
+	COI      bool // standalone queries keep only hypotheses in the goal's cone of influence
 	Eng     *Engine
 	Fn      *ssa.Function
 	Case    string
@@ -92,6 +94,11 @@ func (vc *VC) Oblige(kind string, name string, reach, goal *Term, pos string, de
 		name = fmt.Sprintf("%s.%d", kind, vc.counts[kind]-1)
 	}
 	full := Implies(reach, goal)
+	if vc.NoSafety && strings.HasPrefix(kind, "safety") {
+		// the contract opts out of run-time-fault obligations (listed as an assumption): assume instead
+		vc.Assume(full)
+		return &Obligation{Name: name, Kind: kind, Goal: True, Result: "unsat", Solver: "assumed", Folded: true}
+	}
 	o := &Obligation{Name: name, Kind: kind, Goal: full, NAssume: len(vc.Assumes), Pos: pos, Detail: detail, Case: vc.Case}
 	if full.IsTrue() {
 		o.Result = "unsat"
@@ -105,6 +112,8 @@ func (vc *VC) Oblige(kind string, name string, reach, goal *Term, pos string, de
 // ---------- executor ----------
 
 type Exec struct {
+	unknownPure bool
+	siteOrd     map[string]map[ssa.Instruction]int
 	eng    *Engine
 	vc     *VC
 	heap0  map[string]*Term // entry heap
@@ -127,6 +136,7 @@ type Exec struct {
 }
 
 type Frame struct {
+	onEntry func(n *vnode)
 	x        *Exec
 	fn       *ssa.Function
 	parent   *Frame
@@ -369,8 +379,16 @@ func (x *Exec) freshVal(hint string, t types.Type) *Val {
 func (x *Exec) newRef(hint string) *Term {
 	r := x.eng.FreshVar(hint, SRef)
 	x.vc.Assume(Gt(r, x.top0))
-	for _, a := range x.allocs {
-		x.vc.Assume(Not(App("=", SBool, r, a)))
+	// injectivity of allocation: pairwise for the first few objects, then (to stay linear in
+	// functions with hundreds of allocations) a strictly increasing chain among the later ones
+	const pairwise = 16
+	for i, a := range x.allocs {
+		if i < pairwise {
+			x.vc.Assume(Not(App("=", SBool, r, a)))
+		}
+	}
+	if len(x.allocs) > pairwise {
+		x.vc.Assume(Gt(r, x.allocs[len(x.allocs)-1]))
 	}
 	// values that were live at a loop head (arbitrary iteration) existed before anything allocated later
 	for _, h := range x.headRefs {
@@ -668,6 +686,10 @@ func (fr *Frame) run(reach *Term, heap map[string]*Term) []*exitPoint {
 		if n == fr.g.entry {
 			n.reach = reach
 			n.heap = cloneHeap(heap)
+			if fr.onEntry != nil {
+				n.defs = map[ssa.Value]*Val{}
+				fr.onEntry(n)
+			}
 		} else {
 			var live []*vedge
 			for _, e := range n.preds {
@@ -1050,7 +1072,7 @@ func (fr *Frame) loopMods(n *vnode) []modTarget {
 			return
 		}
 		if c.IsInvoke() {
-			everything = true
+			everything = !x.unknownPure
 			return
 		}
 		if top {
@@ -1066,7 +1088,7 @@ func (fr *Frame) loopMods(n *vnode) []modTarget {
 			visitFn(mc.Fn.(*ssa.Function), depth+1, false)
 			return
 		}
-		if x.isPureExternal(c) {
+		if x.isPureExternal(c) || x.unknownPure {
 			return
 		}
 		everything = true
